@@ -53,6 +53,10 @@ class Query:
 
     def structure_mismatch(self):
         t, o = list(self.T.cols), [c[0] for c in self.O.comps]
+        sem = self.case.pipe.output_datasets.get(self.name)
+        if sem is not None:
+            # run() projects the result table on the components semantic analysis predicts
+            t = [c for c in t if c in sem.components]
         if set(t) != set(o):
             return "columns differ: SQL %s, VTL reference %s" % (t, o)
         return None
